@@ -111,3 +111,39 @@ func vC04Elements(w *vWorld) {
 func vh_C04_elements_ids()  { vC04Elements(vWorldHostile(0)) }
 func vh_C04_elements_bad()  { vC04Elements(vWorldHostile(1)) }
 func vh_C04_elements_self() { vC04Elements(vWorldHostile(2)) }
+
+// every keyword position (and the middle of a three-element tuple) with a cycle through it: A -> A, or A -> B -> A
+func vWorldCycleAt() *vWorld {
+	vUseURLSet(0)
+	kp := vChoose(len(vKwPos)+1, "kwpos.all")
+	two := vChoose(2, "twocycle") == 1
+	tgt := "#/definitions/A"
+	if two {
+		tgt = "#/definitions/B"
+	}
+	defA := ""
+	if kp == len(vKwPos) {
+		defA = `{"description":"la","items":[{"description":"first"},` + vRefJSON(tgt) + `,{"description":"third"}]}`
+	} else {
+		defA = vDefJSON("la", kp, vRefJSON(tgt))
+	}
+	w := &vWorld{root: vURoot, docs: map[string]string{}}
+	w.docs[vURoot] = `{"swagger":"2.0","info":{"title":"t","version":"1"},"paths":{},` +
+		`"definitions":{"A":` + defA + `,"B":{"description":"lb","properties":{"back":{"$ref":"#/definitions/A"}}}}}`
+	return w
+}
+
+func vh_C04_spec_cycle_at() { vC04Spec(vWorldCycleAt()) }
+func vh_C04_schema_cycle_at() {
+	w := vWorldCycleAt()
+	root, ok := w.decodeRoot()
+	if !ok {
+		return
+	}
+	s := root.Definitions["A"]
+	if vChoose(2, "entry") == 0 {
+		_ = ExpandSchema(&s, root, nil)
+	} else {
+		_ = ExpandSchemaWithBasePath(&s, nil, &ExpandOptions{RelativeBase: w.root, PathLoader: w.loader, ContinueOnError: vNondetBool("ContinueOnError")})
+	}
+}
